@@ -171,8 +171,13 @@ func runTRaw(r *Run, s *TSpec) (*tSummary, error) {
 		if st, err := os.Stat(replayDir); err == nil && !st.IsDir() {
 			pending = []string{replayDir}
 		} else {
-			pending, _ = filepath.Glob(filepath.Join(replayDir, "*.json"))
-			sort.Strings(pending)
+			all, _ := filepath.Glob(filepath.Join(replayDir, "*.json"))
+			sort.Strings(all)
+			for _, f := range all {
+				if replayEngine(f) != "batch" {
+					pending = append(pending, f)
+				}
+			}
 		}
 		for round := 0; len(pending) > 0 && round < 40; round++ {
 			out := filepath.Join(r.Work, fmt.Sprintf("tsum-replay-%d.json", round))
